@@ -26,7 +26,7 @@ SHARDS = {'quick': 4, 'thorough': 16}
 BUDGET_S = {'quick': 150, 'thorough': 400}
 RULE = ('(a) traceback texts with 0-12 frames, any subset lacking source lines (first, last, all), paths with '
         'spaces / non-ASCII / <string>, names <module> <lambda> <genexpr>, dotted or bare type names, messages '
-        'empty / one line / multi-line / containing ": " / leading spaces; (b) generated modules raising built-in '
+        'empty / one line / multi-line / containing ": " / leading spaces / quoting another traceback; (b) generated modules raising built-in '
         'and user-defined (module-level and nested) exception classes through call chains of depth 1-25 over '
         'functions, methods, lambdas, generators, comprehensions, exec\'d code without source, frames that catch and '
         're-raise the same exception object, non-ASCII file names, and files edited in place between two runs; distinct = '
@@ -101,7 +101,11 @@ SRC = ['x = f(1)', 'return self.g(a, b)', 'raise ValueError("bad: thing")', 'yie
 TYPES = ['ValueError', 'KeyError', 'pkg.mod.CustomError', 'Exception', 'json.decoder.JSONDecodeError', 'Outer.Inner',
          'OSError', 'a.b.C', 'ExceptionGroup']
 MSGS = ['', '', 'simple message', 'key: value', 'a: b: c', "'missing'", 'line one\nline two', 'first\n  indented: yes\nlast',
-        '[Errno 2] No such file or directory: \'x\'', 'ünï', ' leading space', 'trailing: ', '0', 'x\n\ny']
+        '[Errno 2] No such file or directory: \'x\'', 'ünï', ' leading space', 'trailing: ', '0', 'x\n\ny',
+        # a message that quotes another traceback (multiprocessing's RemoteTraceback, RPC wrappers, test runners)
+        'worker failed\n\"\"\"\nTraceback (most recent call last):\n  File "w.py", line 3, in job\n    go()\nKeyError: 1\n\"\"\"',
+        'remote said:\nTraceback (most recent call last):\n  File "r.py", line 9, in <module>\nValueError: inner: oops',
+        'see File "x.py", line 3, in f', 'ends with a colon:', 'a\n  File "m.py", line 1, in g\nb']
 
 
 def gen_text(r):
@@ -157,6 +161,32 @@ MSG_CLASSES = {'empty': '', 'plain': 'something failed', 'colon': 'key: value: m
                'unicode': 'ünï çødé', 'spaces': '  padded  ', 'quote': 'it\'s "quoted"'}
 
 
+class MemFinder(object):
+    """A PEP 302/451 importer serving module source from memory: the files named in the tracebacks do not exist,
+    their text is only reachable through the loader's get_source()."""
+    sources = {}
+
+    @classmethod
+    def find_spec(cls, name, path=None, target=None):
+        if name in cls.sources:
+            import importlib.util
+            return importlib.util.spec_from_loader(name, cls(), origin='/nonexistent/verif-mem/%s.py' % name)
+        return None
+
+    def create_module(self, spec):
+        return None
+
+    def get_source(self, name):
+        return self.sources[name]
+
+    def get_filename(self, name):
+        return '/nonexistent/verif-mem/%s.py' % name
+
+    def exec_module(self, module):
+        module.__file__ = self.get_filename(module.__name__)
+        exec(compile(self.sources[module.__name__], module.__file__, 'exec'), module.__dict__)
+
+
 def build_module(c):
     """Write a module whose run() raises through the requested chain; returns module name."""
     _pkg_n[0] += 1
@@ -205,6 +235,13 @@ def build_module(c):
                     '    exec("def dyn(x):\\n    return prev(x)\\nresult = dyn(x)", ns)', '    return ns["result"]', '']
         prev = fn
     src += ['def run():', '    return %s(0)' % prev, '']
+    if c.get('at_import'):
+        src += ['run()    # the module fails while it is being imported', '']
+    if c.get('mem'):
+        MemFinder.sources[name] = '\n'.join(src)
+        if MemFinder not in sys.meta_path:
+            sys.meta_path.insert(0, MemFinder)
+        return name
     with open(os.path.join(pkg_dir(), name + '.py'), 'w', encoding='utf-8') as f:
         f.write('\n'.join(src))
     return name
@@ -229,15 +266,73 @@ def check_live(c, st):
     name = build_module(c)
     importlib.invalidate_caches()
     try:
-        mod = importlib.import_module(name)
         try:
+            mod = importlib.import_module(name)
             mod.run()
         except Exception:
             et, ev, tb = sys.exc_info()
+            while tb is not None and 'importlib' in tb.tb_frame.f_code.co_filename or \
+                    tb is not None and tb.tb_frame.f_code is check_live.__code__:
+                tb = tb.tb_next         # the harness's own frame and the import machinery are not the program
         else:
             return ('harness', 'generated program did not raise: %r' % (c,))
+        if tb is None:
+            return ('harness', 'no program frames in %r' % (c,))
         st.monitor_evals += 1
+        if c.get('mem'):
+            st.count('live_cases_source_from_loader' + (':failed-during-import' if c.get('at_import') else ''))
+        if c.get('cold'):
+            # boltons goes first, with a cold line cache: it has to find the source on its own
+            import linecache
+            linecache.clearcache()
+            try:
+                ei0 = tbu.ExceptionInfo.from_exc_info(et, ev, tb)
+                cold_frames = [(cp.module_path, cp.lineno, cp.func_name, str(cp.line or '').strip())
+                               for cp in ei0.tb_info.frames]
+                cold_text = ei0.get_formatted()
+            except Exception as e:
+                return ('exceptioninfo-raised:%s' % type(e).__name__, 'ExceptionInfo on %r raised %r' % (c, e))
+            linecache.clearcache()
+        limit = c.get('limit')
+        if limit is not None:
+            # capped tracebacks: the limit= argument, and sys.tracebacklimit for everything built without one
+            st.monitor_evals += 1
+            want_l = [(f.filename, f.lineno, f.name, (f.line or '').strip()) for f in traceback.extract_tb(tb, limit=limit)]
+            try:
+                ti_l = tbu.TracebackInfo.from_traceback(tb, limit=limit)
+                got_l = [(cp.module_path, cp.lineno, cp.func_name, str(cp.line or '').strip()) for cp in ti_l.frames]
+                had = getattr(sys, 'tracebacklimit', None)
+                sys.tracebacklimit = limit
+                try:
+                    want_g = [(f.filename, f.lineno, f.name, (f.line or '').strip()) for f in traceback.extract_tb(tb)]
+                    want_gt = strip_markers(''.join(traceback.format_exception(et, ev, tb))).rstrip('\n')
+                    ei_g = tbu.ExceptionInfo.from_exc_info(et, ev, tb)
+                    got_g = [(cp.module_path, cp.lineno, cp.func_name, str(cp.line or '').strip())
+                             for cp in ei_g.tb_info.frames]
+                    got_gt = ei_g.get_formatted().rstrip('\n')
+                finally:
+                    if had is None:
+                        del sys.tracebacklimit
+                    else:
+                        sys.tracebacklimit = had
+            except Exception as e:
+                return ('exceptioninfo-raised:%s:limit' % type(e).__name__, 'limit=%r on %r raised %r' % (limit, c, e))
+            if got_l != want_l:
+                return ('frames:limit-argument', 'TracebackInfo.from_traceback(tb, limit=%d) lists %r, extract_tb(tb, limit=%d) %r'
+                        % (limit, [g[1:3] for g in got_l], limit, [w[1:3] for w in want_l]))
+            if got_g != want_g or got_gt != want_gt:
+                return ('frames:sys.tracebacklimit', 'with sys.tracebacklimit=%d ExceptionInfo lists %r, the traceback module %r'
+                        % (limit, [g[1:3] for g in got_g], [w[1:3] for w in want_g]))
+            st.count('live_cases_with_limit')
         want_frames = [(f.filename, f.lineno, f.name, (f.line or '').strip()) for f in traceback.extract_tb(tb)]
+        if c.get('cold'):
+            want_cold_text = strip_markers(''.join(traceback.format_exception(et, ev, tb))).rstrip('\n')
+            if cold_frames != want_frames or cold_text.rstrip('\n') != want_cold_text:
+                i = next((i for i, (a, b) in enumerate(zip(cold_frames, want_frames)) if a != b), 0)
+                return ('frames:source:cold-line-cache%s' % (':loader-served' if c.get('mem') else ''),
+                        'with an empty line cache boltons reports frame %d as %r, the traceback module %r (case %r)'
+                        % (i, cold_frames[i:i + 1], want_frames[i:i + 1], c))
+            st.count('live_cases_cold_cache')
         try:
             ei = tbu.ExceptionInfo.from_exc_info(et, ev, tb)
             got_frames = [(cp.module_path, cp.lineno, cp.func_name, str(cp.line or '').strip())
@@ -305,6 +400,7 @@ def check_live(c, st):
         return None
     finally:
         sys.modules.pop(name, None)
+        MemFinder.sources.pop(name, None)
         try:
             os.unlink(os.path.join(pkg_dir(), name + '.py'))
         except OSError:
@@ -314,8 +410,16 @@ def check_live(c, st):
 def gen_live(r):
     depth = r.choice([0, 1, 2, 3, 5, 8, 25])
     chain = [r.choice(LINKS) for _ in range(depth)]
-    return {'kind': 'live', 'chain': chain, 'exc': r.choice(list(EXC_EXPR)), 'msg': r.choice(list(MSG_CLASSES)),
-            'unicode_name': r.random() < 0.15, 'rerun': r.random() < 0.2}
+    c = {'kind': 'live', 'chain': chain, 'exc': r.choice(list(EXC_EXPR)), 'msg': r.choice(list(MSG_CLASSES)),
+         'unicode_name': r.random() < 0.15, 'rerun': r.random() < 0.2}
+    if r.random() < 0.3:
+        c['limit'] = r.choice([1, 2, 3, 5, 40])
+    if r.random() < 0.35:
+        c['rerun'] = False
+        c['mem'] = r.random() < 0.7
+        c['at_import'] = r.random() < 0.6
+        c['cold'] = r.random() < 0.7
+    return c
 
 
 def check(c, st):
@@ -345,6 +449,8 @@ def shrink(case, fails):
 
 def cleanup():
     global _pkg_dir
+    if MemFinder in sys.meta_path:
+        sys.meta_path.remove(MemFinder)
     if _pkg_dir:
         if _pkg_dir in sys.path:
             sys.path.remove(_pkg_dir)
